@@ -14,7 +14,11 @@ if st:
     print("refusing: /repo working tree is not clean:\n" + st); sys.exit(2)
 bak = tempfile.mkdtemp(prefix="evbak")
 shutil.copytree(V + "/evidence", bak + "/evidence")
-rc = subprocess.run(["git", "-C", "/repo", "apply", patch]).returncode
+rc = subprocess.run(["git", "-C", "/repo", "apply", patch], capture_output=True).returncode
+if rc != 0:
+    # the patch was made against an earlier commit (e.g. before a verification hook was added): three-way merge
+    rc = subprocess.run(["git", "-C", "/repo", "apply", "--3way", patch], capture_output=True).returncode
+    subprocess.run(["git", "-C", "/repo", "reset", "-q"])   # --3way stages the result; keep it in the working tree only
 if rc != 0:
     print("patch does not apply"); sys.exit(2)
 res = {}
@@ -26,6 +30,7 @@ try:
         print(pid, "exit", p.returncode)
         for l in lines: print("   ", l[:300])
 finally:
+    subprocess.run(["git", "-C", "/repo", "reset", "-q"])
     subprocess.run(["git", "-C", "/repo", "checkout", "--", "."])
     subprocess.run(["git", "-C", "/repo", "clean", "-fdq", "--", "tests", "src"])
     shutil.rmtree(V + "/evidence"); shutil.copytree(bak + "/evidence", V + "/evidence"); shutil.rmtree(bak)
